@@ -31,6 +31,8 @@ func bufferSpecs() []Spec {
 		{Kind: KExpr, Pkg: z, Func: "Buffer.Grow", Match: "b.maxSz > 0 && int(b.offset)+n > b.maxSz", Lean: "growExceedsMax", Out: o},
 		{Kind: KExpr, Pkg: z, Func: "Buffer.Grow", Match: "int(b.offset)+n < b.curSz", Lean: "growFits", Out: o},
 		{Kind: KExpr, Pkg: z, Func: "Buffer.Grow", Match: "b.curSz + n", Lean: "growByInit", Out: o},
+		// the order of the checks and of the two clamps is hand-modelled: pin it
+		{Kind: KPin, Pkg: z, Func: "Buffer.Grow", Match: "if int(b.offset)+n < b.curSz { return }; growBy := b.curSz + n; if growBy > 1<<30 { growBy = 1 << 30 }; if n > growBy { growBy = n }; b.curSz += growBy", Lean: "pinGrowSequence", Out: o},
 		{Kind: KExpr, Pkg: z, Func: "Buffer.Grow", Match: "growBy > 1<<30", Lean: "growByTooBig", Out: o},
 		{Kind: KExpr, Pkg: z, Func: "Buffer.Grow", Match: "1 << 30", Nth: 2, Lean: "growByCap", Out: o},
 		{Kind: KExpr, Pkg: z, Func: "Buffer.Grow", Match: "n > growBy", Lean: "growByTooSmall", Out: o},
